@@ -277,11 +277,8 @@ class LinearConstraints:
                 self._b_eq = np.concatenate(
                     (
                         self.b_eq,
-                        0.5
-                        * (
-                            constraint.lb[is_equality]
-                            + constraint.ub[is_equality]
-                        ),
+                        0.5 * constraint.lb[is_equality]
+                        + 0.5 * constraint.ub[is_equality],
                     )
                 )
             if not np.all(is_equality):
@@ -532,7 +529,9 @@ class NonlinearConstraints:
             # equality constraints taken from midpoint between lb and ub
             eq_val = val[eq_idx]
             if len(eq_idx):
-                midpoint = 0.5 * (pc.bounds[1][eq_idx] + pc.bounds[0][eq_idx])
+                midpoint = (
+                    0.5 * pc.bounds[1][eq_idx] + 0.5 * pc.bounds[0][eq_idx]
+                )
                 eq_val = eq_val - midpoint
             c_eq.append(eq_val)
 
